@@ -43,6 +43,7 @@ type pipe struct {
 type socket struct {
 	closed     bool
 	closeq     chan struct{}
+	sizeq      chan struct{}
 	pipes      map[uint32]*pipe
 	recvQLen   int
 	sendQLen   int
@@ -96,15 +97,23 @@ func (s *socket) RecvMsg() (*protocol.Message, error) {
 	if s.recvExpire > 0 {
 		tq = time.After(s.recvExpire)
 	}
-	recvq := s.recvq
 	s.Unlock()
-	select {
-	case <-s.closeq:
-		return nil, protocol.ErrClosed
-	case <-tq:
-		return nil, protocol.ErrRecvTimeout
-	case m := <-recvq:
-		return m, nil
+	for {
+		s.Lock()
+		recvq := s.recvq
+		sizeq := s.sizeq
+		s.Unlock()
+		select {
+		case <-s.closeq:
+			return nil, protocol.ErrClosed
+		case <-sizeq:
+			// The receive queue was replaced; wait on the new one.
+			continue
+		case <-tq:
+			return nil, protocol.ErrRecvTimeout
+		case m := <-recvq:
+			return m, nil
+		}
 	}
 }
 
@@ -141,10 +150,14 @@ func (s *socket) SetOption(name string, value interface{}) error {
 	case protocol.OptionReadQLen:
 		if v, ok := value.(int); ok && v >= 0 {
 			newchan := make(chan *protocol.Message, v)
+			sizeq := make(chan struct{})
 			s.Lock()
 			s.recvQLen = v
 			s.recvq = newchan
+			sizeq, s.sizeq = s.sizeq, sizeq
 			s.Unlock()
+			// Wake anything parked on the old queue.
+			close(sizeq)
 
 			return nil
 		}
@@ -283,6 +296,7 @@ outer:
 		userm := m.Dup()
 		s.Lock()
 		recvq := s.recvq
+		sizeq := s.sizeq
 		for _, p2 := range s.pipes {
 			if p2 == p {
 				continue
@@ -298,14 +312,25 @@ outer:
 		s.Unlock()
 		m.Free()
 
-		select {
-		case recvq <- userm:
-		case <-p.closeq:
-			userm.Free()
-			break outer
-		case <-s.closeq:
-			userm.Free()
-			break outer
+	deliver:
+		for {
+			select {
+			case recvq <- userm:
+				break deliver
+			case <-sizeq:
+				// The receive queue was replaced while we were
+				// waiting for room; deliver into the new one.
+				s.Lock()
+				recvq = s.recvq
+				sizeq = s.sizeq
+				s.Unlock()
+			case <-p.closeq:
+				userm.Free()
+				break outer
+			case <-s.closeq:
+				userm.Free()
+				break outer
+			}
 		}
 	}
 	p.close()
@@ -320,6 +345,7 @@ func NewProtocol() protocol.Protocol {
 	s := &socket{
 		pipes:    make(map[uint32]*pipe),
 		closeq:   make(chan struct{}),
+		sizeq:    make(chan struct{}),
 		recvq:    make(chan *protocol.Message, defaultQLen),
 		sendQLen: defaultQLen,
 		recvQLen: defaultQLen,
